@@ -18,6 +18,8 @@ use zcash_client_sqlite::{
 };
 use zcash_protocol::{consensus::BlockHeight, local_consensus::LocalNetwork};
 
+use orchard::tree::MerkleHashOrchard;
+
 use crate::chain::*;
 use crate::ledger::*;
 use crate::spec::*;
@@ -96,6 +98,50 @@ impl SimWallet {
                 }
             }
         }
+    }
+
+    /// `put_{sapling,orchard,ironwood}_subtree_roots` for consecutive shards `(index, end height, root)` of one pool,
+    /// followed by reading each root back through `get_*_subtree_root`.
+    pub fn put_subtree_roots(&mut self, pool: usize, shards: &[(u64, u32, [u8; 32])]) -> Result<(), String> {
+        use zcash_client_backend::data_api::{chain::CommitmentTreeRoot, WalletCommitmentTrees};
+        let start = shards[0].0;
+        for (i, s) in shards.iter().enumerate() {
+            assert_eq!(s.0, start + i as u64, "completed shards are consecutive");
+        }
+        let db = self.tdb.db_mut();
+        match pool {
+            0 => {
+                let roots: Vec<_> = shards.iter().map(|(_, h, r)| CommitmentTreeRoot::from_parts(BlockHeight::from_u32(*h), sapling::Node::from_bytes(*r).unwrap())).collect();
+                db.put_sapling_subtree_roots(start, &roots).map_err(|e| format!("{e:?}"))?;
+                for (idx, _, r) in shards {
+                    let got = db.get_sapling_subtree_root(*idx).map_err(|e| format!("{e:?}"))?.map(|n| n.to_bytes());
+                    if got != Some(*r) {
+                        return Err(format!("get_sapling_subtree_root({idx}) = {:?} right after the root {} was put", got.map(hex::encode), hex::encode(r)));
+                    }
+                }
+            }
+            1 => {
+                let roots: Vec<_> = shards.iter().map(|(_, h, r)| CommitmentTreeRoot::from_parts(BlockHeight::from_u32(*h), MerkleHashOrchard::from_bytes(r).unwrap())).collect();
+                db.put_orchard_subtree_roots(start, &roots).map_err(|e| format!("{e:?}"))?;
+                for (idx, _, r) in shards {
+                    let got = db.get_orchard_subtree_root(*idx).map_err(|e| format!("{e:?}"))?.map(|n| n.to_bytes());
+                    if got != Some(*r) {
+                        return Err(format!("get_orchard_subtree_root({idx}) = {:?} right after the root {} was put", got.map(hex::encode), hex::encode(r)));
+                    }
+                }
+            }
+            _ => {
+                let roots: Vec<_> = shards.iter().map(|(_, h, r)| CommitmentTreeRoot::from_parts(BlockHeight::from_u32(*h), MerkleHashOrchard::from_bytes(r).unwrap())).collect();
+                db.put_ironwood_subtree_roots(start, &roots).map_err(|e| format!("{e:?}"))?;
+                for (idx, _, r) in shards {
+                    let got = db.get_ironwood_subtree_root(*idx).map_err(|e| format!("{e:?}"))?.map(|n| n.to_bytes());
+                    if got != Some(*r) {
+                        return Err(format!("get_ironwood_subtree_root({idx}) = {:?} right after the root {} was put", got.map(hex::encode), hex::encode(r)));
+                    }
+                }
+            }
+        }
+        Ok(())
     }
 
     pub fn update_tip(&mut self, h: u32) -> Result<(), String> {
